@@ -101,12 +101,14 @@ def _run_vc(args):
         if not paths:
             out["guards"].append({"name": "at-least-one-path", "ok": False})
         # obligations raised along the paths (loop invariants, callee preconditions, in-bounds indices)
-        seen = {}
+        dedup = set()
         for i, p in enumerate(paths):
-            for ob in p.obls:
-                seen.setdefault(ob.name, []).append(z3.Implies(z3.And(ob.hyps[len(hyps):]) if len(ob.hyps) > len(hyps) else z3.BoolVal(True), ob.goal))
-        for name, goals in seen.items():
-            decide("%s/%s" % (vc.name, name), hyps, z3.And(goals), kind="path")
+            for oi, ob in enumerate(p.obls):
+                key = (ob.name, str(ob.hyps[len(hyps):]), str(ob.goal))
+                if key in dedup:  # the same obligation reached along paths that forked later
+                    continue
+                dedup.add(key)
+                decide("%s/%s#path%d.%d" % (vc.name, ob.name, i, oi), list(ob.hyps), ob.goal, kind="path")
         real_paths = [p for p in paths if p.outcome != "aborted"]
         for pname, fn in vc.posts:
             # one obligation per (postcondition, path): small queries discharge far faster than the merged formula
@@ -232,6 +234,11 @@ def run_vcs(ctx: core.Ctx, vcs: List[VC], text_by_clause: Optional[Dict[str, str
                             c.status = "known"
                         continue
                     c.status = "violation"
+                    n_viol = getattr(c, "_nviol", 0) + 1
+                    c._nviol = n_viol
+                    if n_viol > 3:  # report the first three refuted obligations of a clause in full, count the rest
+                        ctx.violations.append({"clause": clause, "replay": None, "no_input": not msg, "msg": ob["name"]})
+                        continue
                     if msg:
                         payload["message"] = msg
                         ctx.violation(clause, payload, msg="obligation %s refuted; counterexample replays on the real code: %s" % (ob["name"], msg))
